@@ -30,7 +30,7 @@ ASSUMPTIONS = [
     "symmetry of a proposal with its inverse is tested on i.i.d. draws: displacement d vs -d, rotation vector vs its negative, log of the deformation gradient vs its negative; "
     "sign test |z|>5 or two-sample KS p<1e-6 flags; a flag is re-measured once with 4x the draws and is a violation only if flagged again",
 ]
-REQUIRED = {"calls:Ball": 1000, "calls:Box": 1000, "calls:Sphere": 1000, "calls:Translation": 1000, "calls:Rotation": 500, "calls:TranslationRotation": 500, "calls:CompositeOperation": 300, "calls:IsotropicDeformation": 500, "calls:AnisotropicDeformation": 500, "calls:ShapeDeformation": 500, "symmetry_tests": 20, "uniformity_tests": 2, "masked_calls": 200}
+REQUIRED = {"masks_assigned_after_construction": 300, "calls:Ball": 1000, "calls:Box": 1000, "calls:Sphere": 1000, "calls:Translation": 1000, "calls:Rotation": 500, "calls:TranslationRotation": 500, "calls:CompositeOperation": 300, "calls:IsotropicDeformation": 500, "calls:AnisotropicDeformation": 500, "calls:ShapeDeformation": 500, "symmetry_tests": 20, "uniformity_tests": 2, "masked_calls": 200}
 SHARD_TIMEOUT = {"quick": 900, "thorough": 3000}
 
 ORIG: dict = {}
@@ -532,7 +532,20 @@ def run_masks(spec, rec):
     for bits in itertools.product([False, True], repeat=9):
         mask = np.array(bits).reshape(3, 3)
         for cls in (oc.IsotropicDeformation, oc.AnisotropicDeformation, oc.ShapeDeformation):
-            op = cls(float(rng.choice([1e-3, 0.05, 0.7])), mask=mask)
+            how = int(rng.integers(0, 3))
+            mv_ = float(rng.choice([1e-3, 0.05, 0.7]))
+            if how == 0:
+                op = cls(mv_, mask=mask)
+            elif how == 1:
+                # built with the default mask, the documented `mask` attribute assigned afterwards (freeze a direction
+                # of a slab once the move is set up)
+                op = cls(mv_)
+                op.mask = mask.copy()
+                rec.count("masks_assigned_after_construction")
+            else:
+                op = cls(mv_, mask=np.ones((3, 3), dtype=bool))
+                op.mask[...] = mask  # edited in place
+                rec.count("masks_assigned_after_construction")
             rec.case(cls.__name__, "mask", int(mask.sum()), bool((mask == mask.T).all()))
             for _ in range(spec["n"]):
                 op.calculate(ctx)
